@@ -55,7 +55,7 @@ theorem onChange_num (pre : List Call) (t : Int) (a d : Int)
     (onChange.outs (pre ++ [⟨t, .num a⟩])).getLast? =
       some (if 16 < 10 * (d - a).natAbs then .deliver (.num a) else .skip) := by
   rw [onChange_snoc]
-  simp only [List.getLast?_append, List.getLast?_singleton, Option.some_or, expectOnChange, h, differs]
+  simp only [List.getLast?_append, List.getLast?_singleton, Option.some_or, expectOnChange, h, differs, Val.numOf]
   by_cases hh : 16 < 10 * (d - a).natAbs <;> simp [hh]
 
 example : onChange.outs [⟨0, .num 320⟩, ⟨1, .num 321⟩, ⟨2, .num 322⟩, ⟨3, .num 322⟩, ⟨4, .str [117]⟩, ⟨4, .str [117]⟩]
@@ -227,7 +227,7 @@ theorem delta_snoc (pre : List Call) (c : Call) :
   | some d =>
     by_cases hc : differs d c.v = true
     · simp only [hc, if_true]
-      cases d <;> cases hv : c.v <;> simp [difference]
+      cases d <;> cases hv : c.v <;> simp [difference, Val.numOf]
     · simp [hc]
 
 /-- **delta telescopes**: over numbers, the delivered differences add up to (reference value −
@@ -245,16 +245,18 @@ theorem delta_telescopes (t : Int) (a : Int) (cs : List Call) (hnum : ∀ c ∈ 
     cases vc with
     | num b =>
       rw [← List.cons_append, state_snoc, outs_snoc, deliveredSum_snoc, hs, hsum, List.getLast?_append]
-      simp only [delta_step, deltaStep, changed, List.getLast?_singleton, Option.some_or, Option.map_some]
+      simp only [delta_step, deltaStep, changed_num_num, List.getLast?_singleton, Option.some_or, Option.map_some]
       by_cases hch : close r b = true
       · exact ⟨r, b, by simp [hch] <;> rfl, rfl, by simp [hch], hch⟩
       · refine ⟨b, b, by simp [hch] <;> rfl, rfl, ?_, by simp [close_iff]⟩
-        simp only [hch, Bool.not_false, if_true, difference]
+        simp only [hch, Bool.not_false, if_true, difference_num_num, numOf_num, Option.getD_some]
         have e : ∀ x y z : Int, x - y + (z - x) = z - y := by intros; omega
         exact e _ _ _
     | str _ => simp [Val.isNum] at hc
     | list _ => simp [Val.isNum] at hc
     | param _ _ _ _ => simp [Val.isNum] at hc
+    | bool _ => simp [Val.isNum] at hc
+    | none => simp [Val.isNum] at hc
 
 /-- **delta, total change**: over numbers the delivered differences add up to last − first,
 up to the tolerance (the last input may sit within the tolerance of the reference value) -/
@@ -284,14 +286,12 @@ theorem aggregate_state (secs t0 : Int) (pre : List Call) :
       sinceDelivery_snoc _ _ _ _ (by simp), ih]
     show (aggregateStep secs _ c).1 = (numSum (if (aggregateStep secs _ c).2.value?.isNone then _ else _),
       (match (aggregateStep secs _ c).2.value? with | some _ => some c.t | none => _).getD t0)
-    cases hv : c.v with
-    | num n =>
+    cases hv : c.v.numOf with
+    | some n =>
       by_cases hc : secs ≤ c.t - (lastDeliveryTime pre ((aggregate secs t0).outs pre)).getD t0
       · simp [aggregateStep, hv, hc, Out.value?, numSum]
       · simp [aggregateStep, hv, hc, Out.value?, numSum_append, numSum]
-    | str _ => simp [aggregateStep, hv, Out.value?, numSum_append, numSum]
-    | list _ => simp [aggregateStep, hv, Out.value?, numSum_append, numSum]
-    | param _ _ _ _ => simp [aggregateStep, hv, Out.value?, numSum_append, numSum]
+    | none => simp [aggregateStep, hv, Out.value?, numSum_append, numSum]
 
 /-- **aggregate**: once `secs` passed since the last delivery (or construction) the sum of the
 values since then is delivered -/
@@ -301,8 +301,9 @@ theorem aggregate_snoc (secs t0 : Int) (pre : List Call) (c : Call) :
   rw [outs_snoc, aggregate_state]
   show _ ++ [(aggregateStep secs _ c).2] = _
   simp only [aggregateStep, expectAggregate]
-  cases c.v <;> simp
-  split <;> rfl
+  cases c.v.numOf with
+  | none => rfl
+  | some n => simp only; split <;> rfl
 
 /-- **aggregate conservation**: the delivered sums plus the not yet delivered remainder equal
 the sum of all (numeric) inputs, after every call sequence -/
@@ -313,15 +314,13 @@ theorem aggregate_conservation (secs t0 : Int) (cs : List Call) :
   | nil => rfl
   | snoc pre c ih =>
     rw [outs_snoc, state_snoc, deliveredSum_snoc, List.map_append, numSum_append, ← ih]
-    show _ + (match (aggregateStep secs _ c).2 with | .deliver (.num n) => n | _ => 0) + (aggregateStep secs _ c).1.1 = _
-    cases hv : c.v with
-    | num n =>
+    show _ + (match (aggregateStep secs _ c).2 with | .deliver v => v.numOf.getD 0 | _ => 0) + (aggregateStep secs _ c).1.1 = _
+    cases hv : c.v.numOf with
+    | some n =>
       by_cases hc : secs ≤ c.t - ((aggregate secs t0).state pre).2
       · simp [aggregateStep, hv, hc, numSum, Int.add_assoc]
       · simp [aggregateStep, hv, hc, numSum, Int.add_assoc]
-    | str _ => simp [aggregateStep, hv, numSum]
-    | list _ => simp [aggregateStep, hv, numSum]
-    | param _ _ _ _ => simp [aggregateStep, hv, numSum]
+    | none => simp [aggregateStep, hv, numSum]
 
 /-- right after a delivery nothing is pending -/
 theorem aggregate_pending_zero (secs t0 : Int) (pre : List Call) (c : Call) (v : Val)
@@ -332,12 +331,10 @@ theorem aggregate_pending_zero (secs t0 : Int) (pre : List Call) (c : Call) (v :
   simp only [List.getLast?_append, List.getLast?_singleton, Option.some_or, Option.some.injEq] at h
   revert h
   show (aggregateStep secs _ c).2 = _ → (aggregateStep secs _ c).1.1 = 0
-  cases hv : c.v with
-  | num n =>
+  cases hv : c.v.numOf with
+  | some n =>
     by_cases hc : secs ≤ c.t - ((aggregate secs t0).state pre).2 <;> simp [aggregateStep, hv, hc]
-  | str _ => simp [aggregateStep, hv]
-  | list _ => simp [aggregateStep, hv]
-  | param _ _ _ _ => simp [aggregateStep, hv]
+  | none => simp [aggregateStep, hv]
 
 example : (aggregate 32 0).outs [⟨1, .num 16⟩, ⟨20, .num 8⟩, ⟨32, .num 1⟩, ⟨40, .str [97]⟩, ⟨63, .num 5⟩, ⟨64, .num 6⟩]
     = [.skip, .skip, .deliver (.num 25), .raised, .skip, .deliver (.num 11)] := by decide
@@ -355,6 +352,30 @@ theorem custom_outs (p : Pred) (cs : List Call) :
 theorem custom_snoc (p : Pred) (pre : List Call) (c : Call) :
     (custom p).outs (pre ++ [c]) = (custom p).outs pre ++ [expectCustom p pre ((custom p).outs pre) c] := by
   rw [outs_snoc]; rfl
+
+/-- **custom, as a whole**: the callback receives exactly the calls whose value the user
+predicate accepts — a plain filter of the call list, values and clock readings untouched;
+truthiness of the value itself plays no role (0, False, "", [] and None are passed on when the
+predicate accepts them) -/
+theorem custom_delivered (p : Pred) (cs : List Call) :
+    delivered cs ((custom p).outs cs) = cs.filter fun c => p.eval c.v := by
+  rw [custom_outs]
+  induction cs with
+  | nil => rfl
+  | cons c cs ih =>
+    by_cases h : p.eval c.v = true
+    · simp [delivered, h, ih]
+    · simp [delivered, h, ih]
+
+example : (custom .always).outs [⟨0, .num 0⟩, ⟨1, .bool false⟩, ⟨2, .str []⟩, ⟨3, .list []⟩, ⟨4, .none⟩]
+    = [.deliver (.num 0), .deliver (.bool false), .deliver (.str []), .deliver (.list []), .deliver .none] := by decide
+
+/-- falsy values are values: `False`, `0`, `None`, `""`, `[]` are delivered by on_change like any
+other (and `True` / `1.0` do not differ) -/
+example : onChange.outs [⟨0, .num 0⟩, ⟨1, .bool false⟩, ⟨2, .bool true⟩, ⟨3, .num 16⟩, ⟨4, .none⟩, ⟨5, .none⟩,
+      ⟨6, .str []⟩, ⟨7, .list []⟩, ⟨8, .num 0⟩]
+    = [.deliver (.num 0), .skip, .deliver (.bool true), .skip, .deliver .none, .skip,
+       .deliver (.str []), .deliver (.list []), .deliver (.num 0)] := by decide
 
 /-! ### pass-through and order -/
 
@@ -431,9 +452,13 @@ theorem deltaTotal_outs (cs : List Call) : deltaTotal cs (delta.outs cs) = true 
           | str _ => rfl
           | list _ => rfl
           | param _ _ _ _ => rfl
+          | bool _ => rfl
+          | none => rfl
     | str _ => simp [deltaTotal]
     | list _ => simp [deltaTotal]
     | param _ _ _ _ => simp [deltaTotal]
+    | bool _ => simp [deltaTotal]
+    | none => simp [deltaTotal]
 
 theorem aggregateTotal_outs (secs t0 : Int) (cs : List Call) :
     aggregateTotal cs ((aggregate secs t0).outs cs) = true := by
